@@ -475,7 +475,8 @@ pub fn c02_lib_case(c: &mut Ctx, lib: &Pkt, case: &Case) {
                                 );
                             }
                             if !minimal {
-                                c.violation(format!("C02:v{}:{}:remlen-nonminimal", f, t), "remaining length not minimally encoded".to_string(), case.clone());
+                                // C02 is about lengths agreeing, not about minimality (that is C10's): observed only
+                                c.count("observed.remlen-nonminimal");
                             }
                             c.count(&format!("hdrlen.{}", hdr));
                             if let Some(body) = parts(c, lib, case, &mut hash) {
